@@ -9,7 +9,10 @@ Record citer := CIter {
   ci_worlds : list world;         (* remote live/trash, remote complete live/trash, local ... (8) *)
   ci_queue : list oq;
   ci_next : Z; ci_exc : bool; ci_limit : Z;
-  ci_ret : option Z               (* trashbin retention in force (may change across a restart) *)
+  ci_ret : option Z;              (* trashbin retention in force (may change across a restart) *)
+  ci_skips : list Z               (* offsets <= limit of bus events that carry no data for the model
+                                     (a 'dataschema' event that leaves the client's mapping alone):
+                                     consumed without effect, the offset moves past them *)
 }.
 Record ccase := CCase { k_cfg : ccfg; k_outcomes : list hres; k_iters : list citer;
                         k_qobs : list (list (N * Z * obj)) (* per handler invocation: the objects having queue entries *) }.
@@ -19,7 +22,7 @@ Definition mk_ccase (c : ccfg) (outs : list hres) (bus : list (Z * cev)) (its : 
   CCase c outs
     (map (fun it => CIter (ci_now it) (ci_restart it)
                           (List.filter (fun p => (fst p <=? ci_limit it)%Z) bus)
-                          (ci_calls it) (ci_worlds it) (ci_queue it) (ci_next it) (ci_exc it) (ci_limit it) (ci_ret it)) its) [].
+                          (ci_calls it) (ci_worlds it) (ci_queue it) (ci_next it) (ci_exc it) (ci_limit it) (ci_ret it) (ci_skips it)) its) [].
 Definition with_qobs (x : ccase) (q : list (list (N * Z * obj))) : ccase :=
   CCase (k_cfg x) (k_outcomes x) (k_iters x) q.
 
@@ -74,7 +77,9 @@ Definition run_iter (c : ccfg) (outs : list hres) (cl : client) (it : citer) : c
                      false false (force_retry st0) (poison st0) in
   let evs := List.filter (fun p => (cl_next cl0 <=? fst p)%Z) (ci_bus it) in
   let c' := CCfg (cc_types c) (ci_ret it) (cc_fkpolicy c) (cc_remed c) (cc_ts c) (cc_alltypes c) in
-  client_iter c' (outcome_of outs) (Client st0' (cl_next cl0)) (ci_now it) evs.
+  let cl1 := client_iter c' (outcome_of outs) (Client st0' (cl_next cl0)) (ci_now it) evs in
+  if exc (cl_st cl1) then cl1
+  else Client (cl_st cl1) (fold_left (fun n s => if (s =? n)%Z then (n + 1)%Z else n) (ci_skips it) (cl_next cl1)).
 
 Definition corr_iter (ts : N) (cl : client) (it : citer) : bool * bool * bool * bool * bool :=
   (list_eqb (call_eqb ts) (calls (cl_st cl)) (ci_calls it),
